@@ -40,6 +40,9 @@ def scenario_list(tier, seed, focus):
               'dup': focus == 'sched' and rnd.random() < 0.3,
               'second': rnd.random() < 0.5,          # a second command after editing src
               'concurrent': (focus == 'sched' and rnd.random() < 0.35)}
+        # every third scenario under controlled scheduling (harness.Serializer: uniform / PCT priorities over all gates of
+        # the hooked redo): branches of the build are starved for long stretches, many jobs are ready at one select()
+        sc['serial'] = i % 3 == 2
         out.append(sc)
     return out
 
@@ -72,7 +75,10 @@ def run_scenario(sc, root, bindir):
         if world_tokens is not None:
             world = jobdrive.World(world_tokens, trace, rnd, active=sc['world_active'])
         gate = None
-        if sc['delay']:
+        if sc.get('serial'):
+            import harness
+            gate = harness.Serializer(os.path.join(d, 'sgate%d' % next(gate_no)), sc['seed'] % 100000 + next(gate_no), settle=0.008)
+        elif sc['delay']:
             gate = jobdrive.SelectDelayer(os.path.join(d, 'gate%d' % next(gate_no)), random.Random(rnd.random()))
         try:
             r = jobdrive.run_build(bindir, pdir, trace, argv, timeout=90, world=world, gate=gate, extra_env=extra)
